@@ -8,6 +8,6 @@ def main (args : List String) : IO UInt32 := do
   match args with
   | ["density"] =>
     let cfg : Density.Cfg := { mergeSkipOnN := DSGen.density_MERGE_SKIPS_ON_N, queryChecksDim := DSGen.density_QUERY_CHECKS_DIM,
-                               weight64 := DSGen.density_EST_WEIGHT_64 }
+                               weight64 := DSGen.density_EST_WEIGHT_64, popsEmptyTop := DSGen.density_COMPACT_POPS_EMPTY_TOP }
     runDriver ({ minK := DSGen.density_MIN_K, cfg := cfg } : Density.DState) Density.stepLine
   | _ => IO.eprintln "usage: dsmodel_density density"; return 2
